@@ -73,6 +73,7 @@ func init() {
 	register(&Spec{
 		ID: "C08", World: "BYTES",
 		New:        func() dsim.World { return &c08Switch{} },
+		Warm:       []func() dsim.World{func() dsim.World { return &c08Conc{} }, func() dsim.World { return &c08World{} }},
 		Cfg:        dsim.Config{MaxChaosSteps: 150, MaxStableSteps: 6000, Horizon: defaultCfg.Horizon},
 		Real:       []string{"util/rwc.PacketConn (WriteTo, rxPump, ReadFrom)", "stream/packet.Session (SendMsg, RecvMsg)"},
 		Stub:       []string{"the underlying io.ReadWriteCloser is a simulator-owned byte stream (dsim.ByteDir) with driver-chosen chunking"},
